@@ -23,21 +23,30 @@ import (
 )
 
 type cfg struct {
-	L         int
-	Entry     string // queried, explicit, announce
-	H         int    // head index
-	Latest    int    // -1 none
-	LatestVia string // set, lastknown
-	Stop      int    // -1 none, 0..L-1 on chain, L foreign
-	Resync    bool
+	L          int
+	Entry      string // queried, explicit, announce
+	H          int    // head index
+	Latest     int    // -1 none
+	LatestVia  string // set, lastknown
+	Stop       int    // -1 none, 0..L-1 on chain, L foreign
+	Resync     bool
 	Ds, Df, Dc int64
-	Seg       int64 // -1 disabled
-	SegScoped bool
-	Pre       uint // bitmask of pre-stored blocks
+	Seg        int64 // -1 disabled
+	SegScoped  bool
+	Pre        uint // bitmask of pre-stored blocks
+	// Prior: 0 none; b+1 = before the observed sync the same subscriber really
+	// synced the older advertisement b with an explicit head (which records no
+	// latest-synced value): blocks 0..b are in the store because a sync put
+	// them there, and the per-publisher sync client has a history.
+	Prior int
 }
 
 func (c cfg) key() string {
-	return fmt.Sprintf("ads|L%d|%s|h%d|lat%d%s|stop%d|re%v|D%d,%d,%d|seg%d%v|pre%b", c.L, c.Entry, c.H, c.Latest, c.LatestVia, c.Stop, c.Resync, c.Ds, c.Df, c.Dc, c.Seg, c.SegScoped, c.Pre)
+	k := fmt.Sprintf("ads|L%d|%s|h%d|lat%d%s|stop%d|re%v|D%d,%d,%d|seg%d%v|pre%b", c.L, c.Entry, c.H, c.Latest, c.LatestVia, c.Stop, c.Resync, c.Ds, c.Df, c.Dc, c.Seg, c.SegScoped, c.Pre)
+	if c.Prior > 0 {
+		k += fmt.Sprintf("|prior-sync-of-%d", c.Prior-1)
+	}
+	return k
 }
 
 // base is the key without the "how" dimensions (segment size, pre-stored
@@ -168,16 +177,35 @@ func run(t *testing.T, c cfg) (o obs) {
 			}))
 		}
 		sub := w.NewSubscriber(opts...)
-		if c.Latest >= 0 && c.LatestVia != "lastknown" {
+		if c.Latest >= 0 && c.LatestVia != "lastknown" && c.LatestVia != "sync" {
 			if err := sub.SetLatestSync(id.ID, ch.Cids[c.Latest]); err != nil {
 				panic(err)
 			}
 		}
 		for i := 0; i < c.L; i++ {
-			if c.Pre&(1<<i) != 0 {
+			if c.Pre&(1<<i) != 0 && (c.Prior == 0 || i > c.Prior-1) && !(c.LatestVia == "sync" && i <= c.Latest) {
 				b, _ := p.Src.Get(ch.Cids[i])
 				w.Dst.Put(ch.Cids[i], b)
 			}
+		}
+		// histories made of real syncs on this subscriber (their hook calls,
+		// requests and notifications are not part of the observation)
+		if c.Prior > 0 {
+			if _, err := sub.SyncAdChain(context.Background(), p.AddrInfo(), dagsync.WithHeadAdCid(ch.Cids[c.Prior-1]), dagsync.ScopedDepthLimit(int64(c.L)+10)); err != nil {
+				panic(fmt.Sprintf("prior explicit-head sync failed: %v", err))
+			}
+			synctest.Wait()
+		}
+		if c.Latest >= 0 && c.LatestVia == "sync" {
+			p.Publisher.SetRoot(ch.Cids[c.Latest])
+			if _, err := sub.SyncAdChain(context.Background(), p.AddrInfo(), dagsync.ScopedDepthLimit(int64(c.L)+10)); err != nil {
+				panic(fmt.Sprintf("prior sync to the latest-synced ad failed: %v", err))
+			}
+			synctest.Wait()
+		}
+		if c.Prior > 0 || c.LatestVia == "sync" {
+			w.ResetHooks()
+			p.ResetLog()
 		}
 		lst := w.Listen()
 		defer lst.Stop()
@@ -411,11 +439,11 @@ func TestCheck(t *testing.T) {
 	for L := 1; L <= maxL; L++ {
 		// A: what to sync
 		type what struct {
-			entry      string
-			h, lat     int
-			via        string
-			stop       int
-			resync     bool
+			entry  string
+			h, lat int
+			via    string
+			stop   int
+			resync bool
 		}
 		var A []what
 		for _, entry := range []string{"queried", "explicit", "announce"} {
@@ -508,6 +536,7 @@ func TestCheck(t *testing.T) {
 		}
 	}
 	boundarySweep(t, r, thorough)
+	historySweep(t, r, thorough)
 	checkEntries(t, r, maxL)
 	t.Logf("violations: %d", r.Violations())
 }
@@ -516,6 +545,51 @@ func TestCheck(t *testing.T) {
 // chains longer than the main product can afford. A segment that is not
 // shortened to the remaining depth only shows when the chain is longer than the
 // depth limit, i.e. never on the short chains above.
+// historySweep: the observed sync is not the first thing this subscriber does.
+// Blocks are in the store because an earlier explicit-head sync of an older
+// advertisement fetched them, and / or the latest-synced value was reached by a
+// real sync. What must be reported and what may be requested is the same as
+// when the blocks were put there by hand and the value set by hand; only the
+// subscriber (and its per-publisher sync client) has a past.
+func historySweep(t *testing.T, r *vp.Recorder, thorough bool) {
+	lengths := []int{5}
+	if thorough {
+		lengths = []int{5, 6, 8}
+	}
+	all := func(b int) uint { return uint(1)<<(uint(b)+1) - 1 }
+	for _, L := range lengths {
+		for _, seg := range []int64{-1, 1, 2, 3, 4} {
+			for _, entry := range []string{"queried", "explicit", "announce"} {
+				// an older ad b was synced with an explicit head before
+				for b := 0; b <= L-2; b++ {
+					check(t, r, cfg{L: L, Entry: entry, H: L - 1, Latest: -1, LatestVia: "set", Stop: -1, Seg: seg, Pre: all(b), Prior: b + 1})
+					if entry != "announce" {
+						// and with an explicit stop below it
+						check(t, r, cfg{L: L, Entry: entry, H: L - 1, Latest: -1, LatestVia: "set", Stop: 0, Seg: seg, Pre: all(b), Prior: b + 1})
+					}
+				}
+				// the latest-synced value was reached by a real sync
+				for lat := 0; lat <= L-1; lat++ {
+					c := cfg{L: L, Entry: entry, H: L - 1, Latest: lat, LatestVia: "sync", Stop: -1, Seg: seg, Pre: all(lat)}
+					check(t, r, c)
+					if entry != "announce" {
+						c.Resync = true
+						check(t, r, c)
+					}
+					// both: an explicit-head sync of an ad above the latest one, too
+					if lat+1 <= L-2 {
+						c2 := cfg{L: L, Entry: entry, H: L - 1, Latest: lat, LatestVia: "sync", Stop: -1, Seg: seg, Pre: all(lat + 1), Prior: lat + 2}
+						check(t, r, c2)
+					}
+				}
+			}
+		}
+		if r.OverBudget() {
+			return
+		}
+	}
+}
+
 func boundarySweep(t *testing.T, r *vp.Recorder, thorough bool) {
 	lengths := []int{5, 6}
 	if thorough {
